@@ -216,6 +216,7 @@ fn probe_char() -> Result<(), Failure> {
 fn probe_prim(prim: crate::program::Prim) -> Result<(), Failure> {
     use crate::program::*;
     let prog = Program {
+        name_style: 0,
         defs: vec![Def {
             path: vec!["krate".into(), "HasChar".into()],
             params: vec![],
@@ -281,6 +282,8 @@ impl Property for C12 {
                 let mut t = Tape::new(bytes);
                 let mut opts = GenOpts::full();
                 opts.chars = false;
+                // outside the property's quantifier: compact wraps unsigned integers or wrappers of them
+                opts.compact_unit = false;
                 // U256/I256 leaves are excluded like char leaves (known finding, covered by its probe)
                 opts.manual_prims = false;
                 opts.lookalike = true;
